@@ -130,7 +130,7 @@ class Objs:
 
     def marshal(self, kind, buf_obj, comp, length):
         L = self.L
-        out = ctypes.create_string_buffer(bytes([CAN]) * (length + 64), length + 64)
+        out = ctypes.create_string_buffer(bytes([CAN]) * (length + 512), length + 512)      # room for a whole extra element of any kind behind the expected length
         fn = {"wk_params": "embedded_pairing_wkdibe_params_marshal", "wk_secretkey": "embedded_pairing_wkdibe_secretkey_marshal",
               "wk_ciphertext": "embedded_pairing_wkdibe_ciphertext_marshal", "wk_signature": "embedded_pairing_wkdibe_signature_marshal",
               "wk_masterkey": "embedded_pairing_wkdibe_masterkey_marshal", "lq_params": "embedded_pairing_lqibe_params_marshal",
@@ -138,7 +138,7 @@ class Objs:
               "lq_secretkey": "embedded_pairing_lqibe_secretkey_marshal", "lq_ciphertext": "embedded_pairing_lqibe_ciphertext_marshal"}[kind]
         L.call(fn, out, buf_obj, 1 if comp else 0)
         raw = out.raw
-        return raw[:length], raw[length:] == bytes([CAN]) * 64
+        return raw[:length], raw[length:] == bytes([CAN]) * 512
 
     def reported_length(self, kind, buf_obj, comp, l, sig):
         L = self.L
@@ -256,6 +256,15 @@ def reuse_menu(W, W2, kind, history, comp, seed):
         menu.append(("B!%d" % off, B[:off] + bad + B[off + len(bad):], False))
     if kind in ("wk_params", "wk_secretkey"):
         menu.append(("B-1", B[:-1], False))
+        # N: the same object from a system with the OTHER signature setting (another marshalled length; the flag of the re-used object must follow
+        # the buffer in both directions - seeded C15-r7a kept a stale 'signatures' flag and signature element)
+        W3 = c11.world(W.cfg, l, not sig, seed + 104729)
+        if W3 is not None:
+            objsN = build_objects(W3, {"history": history})
+            _, objN, l3, sig3 = objsN[name]
+            _, total3 = layout(kind, comp, l3, sig3)
+            Nb, _ = Objs(W3).marshal(kind, objN, comp, total3)
+            menu.append(("N", Nb, True))
     return menu, total, {"A": objA, "B": objB}
 
 
@@ -291,9 +300,9 @@ def eval_reuse(case):
                 last_ok = nm
         else:
             want = by[last_ok][1]
-            again, _ = O.marshal(kind, R.object(), comp, total)
-            if again != want:
-                msgs.append("history %s: the object does not marshal back to the last accepted buffer" % seq)
+            again, clean = O.marshal(kind, R.object(), comp, len(want))
+            if again != want or not clean:
+                msgs.append("history %s: the object does not marshal back to the last accepted buffer%s" % (seq, "" if clean else " (writes beyond its length)"))
             # the other encoding must equal what a fresh object gives for the same buffer
             F = Reused(W, kind)
             F.unmarshal(want, comp, checked)
@@ -305,9 +314,9 @@ def eval_reuse(case):
                 _, tot2 = layout(kind, not comp, key.l, key.signatures)
             else:
                 _, tot2 = layout(kind, not comp, 0, False)
-            o1, _ = O.marshal(kind, R.object(), not comp, tot2)
-            o2, _ = O.marshal(kind, F.object(), not comp, tot2)
-            if o1 != o2:
+            o1, c1 = O.marshal(kind, R.object(), not comp, tot2)
+            o2, c2 = O.marshal(kind, F.object(), not comp, tot2)
+            if o1 != o2 or c1 != c2:
                 msgs.append("history %s: the re-used object differs from a fresh object that received the same last buffer (other encoding differs)" % seq)
         if len(msgs) > 4:
             break
